@@ -1,9 +1,21 @@
 package main
 
-import "fmt"
+import (
+	"fmt"
+)
 
 func dbgTarget(p *Prog) {
 	for fn, m := range p.targetParams() {
 		fmt.Println("TP", funcLabel(fn), m)
+	}
+}
+
+func dbgLayout(p *Prog) {
+	all := append(append(append(p.R.RecEncoders, p.R.RecDecoders...), p.R.ItemEncoders...), p.pkgFunc(pkgIndex, "Read"))
+	for _, fn := range all {
+		fmt.Println("==", funcLabel(fn))
+		for _, r := range p.extractLayout(fn).rows {
+			fmt.Printf("   %-8s %-28s @%-22s w=%d  %s\n", r.Op, r.Buf, r.Off, r.W, r.What)
+		}
 	}
 }
